@@ -54,6 +54,14 @@ def step (d : D) (toks : List String) : D × String :=
   | ["unpause", v] => match nat? v with | some v => run d (.msgUnpause v) | none => (d, "bad-op")
   | ["kpause", v] => match nat? v with | some v => run d (.kPause v) | none => (d, "bad-op")
   | ["rankreset"] => run d .rankReset
+  | ["rotate", v] =>
+    -- recovery rotation of the validator's owner: validators are indexed by their consensus key here, which the rotation
+    -- keeps - status, counters, queues and consensus-set membership stay as they are (refused for an account without record)
+    match nat? v with
+    | some v => (match rotateOwner d.s v with
+                 | some s' => ({ d with s := s' }, "ok")
+                 | none => (d, "err"))
+    | none => (d, "bad-op")
   | ["activate", v, now] => match nat? v, int? now with | some v, some now => run d (.msgActivate v now) | _, _ => (d, "bad-op")
   | ["jail", v, now] => match nat? v, int? now with | some v, some now => run d (.jail v now) | _, _ => (d, "bad-op")
   | ["evidence", v, now, known, stale] =>
